@@ -27,7 +27,7 @@ func runC04(c *Ctx) {
 	r.Rule("R3-same-token", "claims are read only from the token that passed Verify on this path", 6)
 	r.Rule("R4-email-verified", "email_verified gate on every success return of the claim readers", 5)
 	r.Rule("R5-bearer-loaders", "bearer loader list = provider.CreateSessionFromToken + CreateTokenToSessionFunc(verifier.Verify)", 2)
-	r.Rule("R6-overrides-delegate", "OIDC-embedding providers' overrides succeed only after the embedded implementation succeeded", 7)
+	r.Rule("R6-overrides-delegate", "OIDC-embedding providers' overrides succeed only after the embedded implementation succeeded", 8)
 
 	runC04R1(c)
 	runC04R2(c)
